@@ -168,14 +168,14 @@ class C16(Prop):
             return []
         reqs = self.draw_requests(case, data)
         choices = data.draw(st.lists(st.integers(0, 2), min_size=0, max_size=40))
-        return [("probe", "sched", reqs, choices)]
+        return [("probe", "sched", reqs, choices, data.draw(st.booleans()))]
 
     # -- one schedule -------------------------------------------------------------------------------
     def run_probe(self, case, pop):
         if pop[1] == "sched":
-            self.run_schedule(case, [tuple(r) for r in pop[2]], list(pop[3]))
+            self.run_schedule(case, [tuple(r) for r in pop[2]], list(pop[3]), eager=bool(pop[4]) if len(pop) > 4 else False)
 
-    def run_schedule(self, case, reqs, choices, default="round-robin"):
+    def run_schedule(self, case, reqs, choices, default="round-robin", eager=False):
         ctx, t, led = case.ctx, case.t, case.led
         # requests naming webentities that no longer exist (reduced replay) are dropped
         wes = led.webentities()
@@ -208,7 +208,7 @@ class C16(Prop):
                 if run.started[i] and dirty[i] and (not run.done[i] or i == j):
                     take(i)
 
-        run = sched.Run(t, reqs, choices, on_step=on_step, default=default)
+        run = sched.Run(t, reqs, choices, on_step=on_step, default=default, eager=eager)
         try:
             run.run()
         except (Violation, HarnessError):
@@ -426,11 +426,11 @@ class C16(Prop):
                 cfgj = cfg.to_json()
             finally:
                 case.abort()
-            self.enumerate_all(ctx, cfgj, warm, reqs, cap)
+            self.enumerate_all(ctx, cfgj, warm, reqs, cap, eager=data.draw(st.booleans()))
 
         run_given(seed * 1000 + 300 + shard, n_scen, st.data(), scenario)
 
-    def enumerate_all(self, ctx, cfgj, warm, reqs, cap):
+    def enumerate_all(self, ctx, cfgj, warm, reqs, cap, eager=False):
         """stateless DFS over choice prefixes; every maximal schedule of the two requests is executed from a fresh index"""
         stack = [[]]
         count = 0
@@ -444,8 +444,8 @@ class C16(Prop):
             try:
                 for j in warm:
                     case.step(op_from_json(j))
-                case.ops.append(("probe", "sched", reqs, prefix + [0] * 200))
-                run = self.run_schedule(case, reqs, prefix, default="first")
+                case.ops.append(("probe", "sched", reqs, prefix + [0] * 200, eager))
+                run = self.run_schedule(case, reqs, prefix, default="first", eager=eager)
             finally:
                 case.abort()
             count += 1
